@@ -50,6 +50,22 @@ CHECKS = {
    technique=TECH + "Python AST symbolic execution with 2-D array model (one concrete dimension) -> elementwise VCs -> z3; sum laws as "
              "Lean-checked lemmas; replay on the real resolution classes",
    design="DESIGN.md 6 C03"),
+ "C04": dict(engine="pyvc+zreal",
+   text="What a contract can carry of a convergence statement: the weights ARE the bin masses of the documented kernels, so the smeared "
+        "value is the midpoint quadrature of the documented integral.  Pinhole and slit: the C03 obligations on pinhole_resolution, "
+        "_q_perp_weights and the slit_resolution rows (masses of N(q,sigma) on bins with centres in (-2.5,+3) sigma, renormalised; masses "
+        "of du/L under u = sqrt(q'^2-q^2); multiplicity x bin width / 2W; average over 61 shifted centres) plus the z3 lemma that the "
+        "code's multiplicity rule equals the number of preimages v in [-W,W] of q' = |q+v|.  2-D: the REAL Pinhole2D._calc_res is run by "
+        "numpy on object arrays of symbolic reals (vp/zreal.py) for 1..3 pixels x accuracy settings; every one of the nbins*nq sample "
+        "points equals the documented polar cloud (radial sigma dq_par, tangential dq_perp, rotated by +arctan(qy/qx)) and the ring "
+        "weights are the Gaussian ring masses in the same bin order; apply() is the weighted mean per pixel.",
+   note="the rate of convergence and the error bounds are real analysis outside the contracts: bounded numeric runs against scipy "
+        "quad/dblquad (three smooth intensities x pinhole / slit-length / slit-width on spacings 4e-4, 2e-4, 1e-4; folded window; 2-D "
+        "quadratic form with mixed term), labelled bounded; array shapes in the 2-D contract are enumerated, values symbolic; cloud "
+        "equals the documented one up to q -> -q for qx < 0",
+   technique=TECH + "real numpy code executed on symbolic object arrays -> polynomial normal-form comparison with the documented cloud; "
+             "adopted elementwise VCs (z3) for the 1-D kernels; bounded quadrature comparison for the rates",
+   design="DESIGN.md 6 C04"),
  "C05": dict(engine="cvc+pyvc",
    text="qac_rotation/qac_apply and qabc_rotation/qabc_apply are executed symbolically from clang's AST of the generated kernel "
         "source (the macro-expanded kernel_iq.c of the current tree) and every matrix entry is proved equal to the corresponding "
@@ -263,6 +279,8 @@ m = {
    "kind_free_text": "homogeneity/degree grading of C functions over clang's JSON AST (relational contracts)"},
   {"name": "rex", "path": "vp/rex.py", "serves_properties": sorted(p for p, c in CHECKS.items() if "rex" in c["engine"]),
    "kind_free_text": "Python re patterns (parsed by CPython's own regex parser) as z3 regular expressions; language lemmas as unsat queries"},
+  {"name": "zreal", "path": "vp/zreal.py", "serves_properties": sorted(p for p, c in CHECKS.items() if "zreal" in c["engine"]),
+   "kind_free_text": "runs the real numpy function on object arrays of symbolic reals (operator overloading building z3 terms); shapes concrete, values symbolic"},
   {"name": "cvc", "path": "vp/cvc.py", "serves_properties": sorted(p for p, c in CHECKS.items() if "cvc" in c["engine"]),
    "kind_free_text": "C symbolic executor over clang's JSON AST of the generated kernel source; VCs for z3"},
  ],
